@@ -117,9 +117,20 @@ def _rhs_ok(c):
     arr = c.st.heap[v.base][0]
     return [c.forall(0, c.D, lambda j: arr[j] == y[j])]
 IUU('__imul__', lambda x, y, j: S.CONV(x, y, j), invs=_imul_invs, defs=lambda c, n: S.conv_def(c, c.pre['self.data'], c.pre['rhs.data'], n))
+def _work_copy(c):
+    """contents of the array the loop fills (whatever its name): the array expression of the loop body's subscripted store"""
+    import ast
+    from vc.engine import View, Undecided
+    tg = [t for n in ast.walk(c.loop) if isinstance(n, ast.Assign) for t in n.targets if isinstance(t, ast.Subscript)] if c.loop is not None else []
+    bases = set()
+    for t in tg:
+        v = c.ex.ev(t.value)
+        if isinstance(v, View): bases.add(v.base)
+    if len(bases) != 1: raise Undecided('cannot identify the array the loop of __itruediv__ fills (%d candidates)' % len(bases))
+    return c.st.heap[bases.pop()][0]
 def _idiv_invs(self):
     def inv0(c, d):
-        x, y = c.pre['self.data'], c.pre['rhs.data']; r = c.st.env['retval'].attrs['data']; arr = c.st.heap[r.base][0]
+        x, y = c.pre['self.data'], c.pre['rhs.data']; arr = _work_copy(c)
         return [c.forall(0, d, lambda j: arr[j] == S.QUOT(x, y, j))] + c.unchanged('self.data', 'rhs.data')
     return {0: inv0}
 IUU('__itruediv__', lambda x, y, j: S.QUOT(x, y, j), req=lambda c: [c.pre['rhs.data'][0] != 0], invs=_idiv_invs, defs=lambda c, n: S.quot_def(c, c.pre['self.data'], c.pre['rhs.data'], n))
